@@ -241,7 +241,20 @@ def q(s):
 def build_model(slot, value):
     """model text with `value` in one string slot; returns (mm, model)"""
     from textx import metamodel_from_str
-    mm = metamodel_from_str(GRAMMAR)
+    classes = []
+    if slot.startswith('equal-'):
+        # user classes whose instances compare by value: two distinct, equal objects are two model objects
+        class Named:
+            def __init__(self, parent=None, name=None, label=None, tags=None, to=None):
+                self.parent, self.name, self.label, self.tags, self.to = parent, name, label, tags, to
+
+            def __eq__(self, other):
+                return type(other) is type(self) and (self.name, self.label) == (other.name, other.label)
+            if slot == 'equal-objects':
+                def __hash__(self):
+                    return hash((self.name, self.label))
+        classes = [Named]
+    mm = metamodel_from_str(GRAMMAR, classes=classes)
     v = value
     if v.endswith('\\') or '\n' in v and False:
         pass
@@ -252,6 +265,8 @@ def build_model(slot, value):
         'list': 'model m named "n" tags "t", %s' % lit,
         'mixed-first': 'model m bag b %s, named "n", 3' % lit,
         'mixed-later': 'model m bag b named "n", %s, 4' % lit,
+        'equal-objects': 'model m named %s label "l" tags "first" named %s label "l" tags "second"' % (lit, lit),
+        'equal-unhashable-objects': 'model m named %s label "l" bag b named %s label "l", 3' % (lit, lit),
     }
     m = mm.model_from_str(texts[slot])
     return mm, m
@@ -394,7 +409,7 @@ def metamodel_checks():
     return n, out
 
 
-SLOTS = ['name', 'attr', 'list', 'mixed-first', 'mixed-later', 'filename']
+SLOTS = ['name', 'attr', 'list', 'mixed-first', 'mixed-later', 'filename', 'equal-objects', 'equal-unhashable-objects']
 KNOWN = {
     'name': 'C29-name-unescaped',
     'mixed-first': 'C29-primitive-list-element-node-id-unescaped',
